@@ -83,6 +83,49 @@ def transforms(p, rng, extracted, avoid=()):
     return out
 
 
+def module_family(rng, count):
+    """nested modules whose members are renamed so that members of DIFFERENT nesting levels share a name (seeded C16d: the
+    unqualified reference of an inner member then bound to the enclosing module's namesake).  Unqualified references only go to
+    members of the referring module itself (and to its child module by relative path), outer members are reached by absolute
+    paths, so every renaming that keeps the names of one module distinct is capture-free.  Returns (orig_src, renamed_src, tag)."""
+    out = []
+    for k in range(count):
+        depth = 2 + rng.below(2)
+        mods = ["ma%d" % k, "mb%d" % k, "mc%d" % k][:depth]
+        consts = [(2 + rng.below(5), 10 ** (i + 1) * (1 + rng.below(9))) for i in range(depth)]
+        uses_abs = rng.chance(1, 2)
+
+        def render(nm):
+            def level(i, ind):
+                pad = "  " * ind
+                c, kk = consts[i]
+                lines = [f"{pad}mod {mods[i]} {{"]
+                lines.append(f"{pad}  pub fn {nm('h', i)}(x) {{ x * {c}.0 + {kk}.0 }}")
+                lines.append(f"{pad}  pub fn {nm('e', i)}(x) {{ x + {kk * 3}.5 }}")
+                if i + 1 < depth:
+                    lines += level(i + 1, ind + 1)
+                    body = f"{mods[i + 1]}::{nm('go', i + 1)}(x) + {nm('h', i)}(x)"
+                else:
+                    body = f"{nm('h', i)}({nm('e', i)}(x))"
+                    if uses_abs and i > 0:
+                        body += f" + {mods[0]}::{nm('h', 0)}(x)"
+                lines.append(f"{pad}  pub fn {nm('go', i)}(x) {{ {body} }}")
+                lines.append(f"{pad}}}")
+                return lines
+            return "\n".join(level(0, 0)) + f"\nfn dsp() {{ {mods[0]}::{nm('go', 0)}(now + 1.0) }}\n"
+        orig = render(lambda r, i: f"{r}{i}_{k}")
+        # colliding names: every role gets ONE name on a random subset of levels (at least two levels share `h`)
+        share = {r: [i for i in range(depth) if rng.chance(2, 3)] for r in ("h", "e", "go")}
+        share["h"] = sorted(set(share["h"]) | {depth - 1, depth - 2})
+        roles = {"h": "helper", "e": "helper2", "go": "run"}
+        if rng.chance(1, 3):
+            roles["e"] = "helper"            # two ROLES share a name across levels (never inside one module)
+            share["e"] = [i for i in share["e"] if i not in share["h"]]
+        ren = render(lambda r, i: roles[r] if i in share[r] else f"{r}{i}_{k}")
+        out.append((orig, ren, "rename:modules"))
+    return out
+
+
 def main(ctx, args):
     ctx.assumptions += [
         "transformations are applied by the generator's renderer to one AST (injective rename maps, capture-free shadowing renamings of one local, redundant parentheses around every binary expression, comments/blank lines/line breaks inside brackets, type annotations equal to the types the generator knows)",
@@ -116,6 +159,11 @@ def main(ctx, args):
                 cid = pr["id"] + "|" + tname
                 cases.append(dict(id=cid, src=pr["prog"].src(kn), sx=None, inputs=pr["inputs"], times=times))
                 meta[cid] = (pr["id"], tname)
+    if not args.replay:
+        for j, (o_src, r_src, tname) in enumerate(module_family(rng, 40 if ctx.tier == "quick" else 400)):
+            cases.append(dict(id=f"mod{j}", src=o_src, sx=None, inputs=[], times=4))
+            cases.append(dict(id=f"mod{j}|{tname}", src=r_src, sx=None, inputs=[], times=4))
+            meta[f"mod{j}|{tname}"] = (f"mod{j}", tname)
     res = pc.run_batch(cases, backends="vm")
     failures, stats, nontriv, samples = [], collections.Counter(), set(), []
     bycase = {c["id"]: c for c in cases}
